@@ -65,7 +65,7 @@ func (c17) Budget(tier string) runner.Budget {
 
 func (c17) Describe() runner.Description {
 	return runner.Description{
-		Rule:        "8% chain-level plans: a booted node with its write handler receives 0-3 gateway transactions (verified, PRE-EXECUTED on the node's shared latest-state object, sent to the pool), 1-4 nonce-checked transactions at nonce offsets 0..3 from the canonical state nonce are added to the pool, then the node proposes (CastBlock), inserts its proposal and proposes again, 1-3 rounds as ONE task of the seeded scheduler with 0-3 allowed preemptions (a goroutine the chain starts while inserting a block may still be pending at the next proposal); what each proposal packed (its transactions + evicted list) must contain no duplicate, nothing executed in a canonical block, and no nonce-checked transaction ahead of the sender's next expected nonce counted from the canonical state of the head. Other plans: 10..150 operations on a real TxPool over <=5 senders with nonce-checked and request-id transactions (nonces in sequence, repeated, ahead; some plans with >200 pending): AddTransaction (fresh, duplicate, already executed, evicted), PackForCast against a state whose nonces the plan sets, MarkExecuted (receipts + evictions), UnMarkExecuted (reorg), GetTransaction / IsExisted / GetExecuted, simulated firings of the pending-cycle ticker (expiry), restart of the node over the same disk. Reference = sequential pool (pending in insertion order with age, executed map, evicted set). After every op: membership lookups agree; a pack has no duplicates, <=200 entries, no executed hash, each sender's nonce-checked transactions in ascending nonce order and none ahead of state nonce + that sender's already placed in-sequence transactions, and (pending <=200) contains every eligible pending transaction; after unmark the block's transactions are pending and packable again; after re-mark they are not; executed records survive a restart. distinct_nontrivial = distinct op-kind sequences containing mark and unmark.",
+		Rule:        "8% chain-level plans: a booted node with its write handler receives 0-3 gateway transactions (verified, PRE-EXECUTED on the node's shared latest-state object, sent to the pool), 1-4 nonce-checked transactions at nonce offsets 0..3 from the canonical state nonce are added to the pool, then the node proposes (CastBlock), inserts its proposal and proposes again, 1-3 rounds as ONE task of the seeded scheduler with 0-3 allowed preemptions (a goroutine the chain starts while inserting a block may still be pending at the next proposal); what each proposal packed (its transactions + evicted list) must contain no duplicate, nothing executed in a canonical block, and no nonce-checked transaction ahead of the sender's next expected nonce counted from the canonical state of the head. Other plans: 10..150 operations on a real TxPool over <=5 senders with nonce-checked and request-id transactions (nonces in sequence, repeated, ahead by 1-3 or by more than 2^63; some plans with >200 pending): AddTransaction (fresh, duplicate, already executed, evicted), PackForCast against a state whose nonces the plan sets (0..3, or above 2^63 so that pending nonces more than 2^63 apart are all packed), MarkExecuted (receipts + evictions), UnMarkExecuted (reorg), GetTransaction / IsExisted / GetExecuted, simulated firings of the pending-cycle ticker (expiry), restart of the node over the same disk. Reference = sequential pool (pending in insertion order with age, executed map, evicted set). After every op: membership lookups agree; a pack has no duplicates, <=200 entries, no executed hash, each sender's nonce-checked transactions in ascending nonce order and none ahead of state nonce + that sender's already placed in-sequence transactions, and (pending <=200) contains every eligible pending transaction; after unmark the block's transactions are pending and packable again; after re-mark they are not; executed records survive a restart. distinct_nontrivial = distinct op-kind sequences containing mark and unmark.",
 		Assumptions: []string{"the pending pool is memory-only by design: a restart empties it (model follows)", "the per-block limit (200) is the property text's 'per-block limit'"},
 		Real:        []string{"service/transaction_pool.go", "service/simple_container.go (gmap list map, ring ageing)", "goleveldb executed store over simulated storage", "types transaction codec (executed records)"},
 		Stub:        []string{"chain (the harness plays it: builds headers/receipts)", "ConsensusHelper", "network"},
@@ -108,6 +108,9 @@ func (c17) Gen(seed uint64, tier string) json.RawMessage {
 		switch r.Intn(8) {
 		case 0:
 			t.Nonce = next[t.Sender] + uint64(r.Range(1, 3)) // ahead
+			if (seed^uint64(i)*0x9e3779b97f4a7c15)>>62 == 0 {
+				t.Nonce += 1 << 63 // far ahead: more than 2^63 from the sender's other nonces (a subtraction-based comparator wraps)
+			}
 		case 1:
 			if next[t.Sender] > 0 {
 				t.Nonce = next[t.Sender] - 1 // repeated
@@ -132,6 +135,9 @@ func (c17) Gen(seed uint64, tier string) json.RawMessage {
 			p.Ops = append(p.Ops, c17Op{K: "add", T: r.Intn(ntx)})
 		case x < 50:
 			p.Ops = append(p.Ops, c17Op{K: "pack", S: r.Intn(3)})
+			if (seed^uint64(len(p.Ops))*0x9e3779b97f4a7c15)>>61 == 0 {
+				p.Ops[len(p.Ops)-1].S = 3 // every sender's state nonce above 2^63: all pending nonces are 'too low' and are packed, so their order shows
+			}
 		case x < 65:
 			blk++
 			p.Ops = append(p.Ops, c17Op{K: "mark", B: blk, N: r.Range(0, 6), E: r.Intn(3)})
@@ -239,6 +245,8 @@ func (c17) Exec(raw json.RawMessage, st *simrt.Stats, log *simrt.Log) *simrt.Vio
 				v = uint64(i % 3)
 			} else if variant == 2 {
 				v = uint64((i*7 + 1) % 4)
+			} else if variant == 3 {
+				v = 1<<63 + 64
 			}
 			s.SetNonce(common.HexToAddress(node.Account(i)), v)
 			nonces[node.Account(i)] = v
